@@ -18,6 +18,9 @@ def Q():
 
 
 def make(cls, kw):
+  kw = dict(kw)
+  if isinstance(kw.get("post_training_scale"), (list, tuple)):
+    kw["post_training_scale"] = np.array(kw["post_training_scale"], dtype=np.float32)   # the API takes an array
   return getattr(Q(), cls)(**kw)
 
 
